@@ -89,7 +89,7 @@ def build_config(rng):
     loader = rng.choice(["split", "delta"])
     target = None
     if loader == "delta":
-        target = rng.choice([lo, hi - 1, hi, rng.randint(lo, hi), lo - 1, hi + 2, rng.randint(lo, hi)])
+        target = rng.choice([lo, hi - 1, hi, rng.randint(lo, hi), lo - 1, hi + 2, rng.randint(lo, hi), 0, 0, 1])
     path = rng.choice(["direct", "dispatcher"])
     recreate = rng.choice([0, 0, 1, 2])
     return {"recreate": recreate, "T": T, "probs": probs, "lo": lo, "hi": hi, "fkind": fkind, "fpar": fpar, "loader": loader,
